@@ -9,7 +9,7 @@ PID = "C06"
 LEVEL = "model_checking"
 RULE = ("residue types with 1, 2, 3 (planar), 4 (chiral, user template) and 5 atoms and a residue with a virtual site, in "
         "linear and branched molecules so that residues have 0-3 bonded neighbours, each neighbour built before or after, incl. molecules whose residue ids restart and a generated 3-atom template in 2-3 molecules; "
-        "backmapping factor {0.4, 1.0}; with and without pre-existing atom coordinates for a prefix; the optimiser answer at each "
+        "backmapping factor {0.4, 1.0, 1.5, 2.0}; with and without pre-existing atom coordinates for a prefix; the optimiser answer at each "
         "residue is chosen from the real L-BFGS answer (default) and all 216 angle triples over {0, pi/2, pi, 3pi/2, 1.0, 2.5} "
         "(<=1 deviating residue per execution; thorough <=2 over a 27-triple subset). Oracle per backmapped residue: centre of "
         "geometry == residue position (1e-9); Gram matrix of (atoms - centre)/factor == Gram matrix of the template vectors taken "
@@ -85,6 +85,10 @@ def systems(tier):
         for bf in (0.4, 1.0) if not name.startswith("DUP") else (0.4,):
             out.append(dict(types=[name], typedefs={name: TYPEDEFS[name]}, molecules=[(name, 1)], box=[4.0, 4.0, 4.0],
                             grid=[[1.0, 1.0, 1.0], [2.5, 2.5, 2.5]], volumes=VOLS, bld_pre=TEMPLATES, kwargs=dict(bfudge=bf)))
+    # backmapping factors above 1 (the template is blown up, not shrunk)
+    for name, bf in (("LIN", 1.5), ("HUB", 2.0), ("SOLO", 1.5)):
+        out.append(dict(types=[name], typedefs={name: TYPEDEFS[name]}, molecules=[(name, 1)], box=[4.0, 4.0, 4.0],
+                        grid=[[1.0, 1.0, 1.0], [2.5, 2.5, 2.5]], volumes=VOLS, bld_pre=TEMPLATES, kwargs=dict(bfudge=bf), small_angles=True))
     # two molecules of the same type: copies must be congruent; second system has a prefix of atom coordinates supplied
     out.append(dict(types=["LIN"], typedefs={"LIN": TYPEDEFS["LIN"]}, molecules=[("LIN", 2)], box=[4.0, 4.0, 4.0],
                     grid=[[1.0, 1.0, 1.0], [2.5, 2.5, 2.5], [3.0, 1.0, 2.0]], volumes=VOLS, bld_pre=TEMPLATES, kwargs=dict(bfudge=0.4), small_angles=True))
